@@ -38,6 +38,7 @@ type Input struct {
 	// sessions (p9_sessions_test.go): one service instance, several operations, scripted providers
 	HeadSeq    *HeadSeqIn    `json:"headseq,omitempty"`
 	DynamicSeq *DynamicSeqIn `json:"dynamicseq,omitempty"`
+	ProposeSeq *ProposeSeqIn `json:"proposeseq,omitempty"`
 	Tags       []string      `json:"tags,omitempty"`
 }
 
@@ -131,6 +132,8 @@ func runInput(t *testing.T, in Input) result {
 		return runHeadSeq(t, in.HeadSeq)
 	case "dynamicseq":
 		return runDynamicSeq(t, in.DynamicSeq)
+	case "proposeseq":
+		return runProposeSeq(t, in.ProposeSeq)
 	}
 	t.Fatalf("unknown path %q", in.Path)
 	return result{}
@@ -139,6 +142,9 @@ func runInput(t *testing.T, in Input) result {
 func genInput(r *Rand, k int) Input {
 	switch k % 8 {
 	case 0:
+		if (k/8)%4 == 3 {
+			return Input{Path: "proposeseq", ProposeSeq: genProposeSeq(r)}
+		}
 		return Input{Path: "propose", Propose: genPropose(r)}
 	case 1:
 		return Input{Path: "relays", Relays: genRelays(r)}
@@ -167,7 +173,7 @@ func genInput(r *Rand, k int) Input {
 func TestC16(t *testing.T) {
 	setup()
 	col := NewCollector("C16", "Check.C16",
-		"one case = one input of one of eight paths (propose, relays, graffiti, config, duties, head, errbody, dynamic) or one session of one service over providers scripted call by call (headseq, dynamicseq), run on the real code with recover(); "+
+		"one case = one input of one of eight paths (propose, relays, graffiti, config, duties, head, errbody, dynamic) or one session of one service over providers scripted call by call (headseq, dynamicseq, proposeseq), run on the real code with recover(); "+
 			"non-trivial = the input carries the unexpected content of its path (blinded without auction result, unusable relay, {{CLIENT}} template, null/malformed config entry, "+
 			"duplicate/oversize/out-of-range duty, nil-bearing or unknown-version block, null/real failure entry, blank/CRLF/empty/missing file; "+
 			"for the sessions headseq and dynamicseq: a script whose answers differ from call to call, fail, or carry nothing); distinct by input text")
